@@ -711,12 +711,12 @@ def build_model_map():
         "AptosAddrDecoder": lambda p: (lambda m, x: m.call("addr.aptos_decode", x)),
         # Base32 / SS58 pipelines of Model/AddrText.v over the merged codec models (group addrtext); curve tag of the
         # key-validity oracle: 2 ed25519, 3 ed25519-blake2b, 4 sr25519
-        "AlgoAddrDecoder": lambda p: (lambda m, x: m.call("addrtext.algo_addr_decode", x)),
-        "XlmAddrDecoder": lambda p: (lambda m, x: m.call("addrtext.xlm_addr_decode", int(p["addr_type"].value), x)),
-        "FilSecp256k1AddrDecoder": lambda p: (lambda m, x: m.call("addrtext.fil_addr_decode", x)),
-        "NanoAddrDecoder": lambda p: (lambda m, x: m.call("addrtext.nano_addr_decode", x)),
-        "NimAddrDecoder": lambda p: (lambda m, x: m.call("addrtext.nim_addr_decode", x)),
-        "SubstrateEd25519AddrDecoder": lambda p: (lambda m, x: m.call("addrtext.substrate_addr_decode", 2, int(p["ss58_format"]), x)),
+        "AlgoAddrDecoder": lambda p: (lambda m, x: m.call("addrtext.algo_decode", x)),
+        "XlmAddrDecoder": lambda p: (lambda m, x: m.call("addrtext.xlm_decode", int(p["addr_type"].value), x)),
+        "FilSecp256k1AddrDecoder": lambda p: (lambda m, x: m.call("addrtext.fil_decode", x)),
+        "NanoAddrDecoder": lambda p: (lambda m, x: m.call("addrtext.nano_decode", x)),
+        "NimAddrDecoder": lambda p: (lambda m, x: m.call("addrtext.nim_decode", x)),
+        "SubstrateEd25519AddrDecoder": lambda p: (lambda m, x: m.call("addrtext.substrate_decode", 2, int(p["ss58_format"]), x)),
     }
     for name, e in ENTRIES.items():
         if e["meta"] and e["meta"][0] in addr:
@@ -724,7 +724,7 @@ def build_model_map():
             if dname == "P2PKHAddrDecoder" and set(params) != {"net_ver"}:
                 continue
             MM[name] = M(addr[dname](params))
-    MM["SubstrateSr25519AddrDecoder.DecodeAddr"] = M(lambda m, x: m.call("addrtext.substrate_addr_decode", 4, 0, x))
+    MM["SubstrateSr25519AddrDecoder.DecodeAddr"] = M(lambda m, x: m.call("addrtext.substrate_decode", 4, 0, x))
     MM["SplToken.GetAssociatedTokenAddress"] = M(
         lambda m, x: m.call("serbip.spl_get_ata", x, "EPjFWdd5AufqSSqeM2qN1xzybapC8G4wEGGkZwyTDt1v"))
     for n in MM:
